@@ -36,6 +36,9 @@ NoLimit == 1000
 \*   set-decl-none  timeout = N, stdin = ..., timeout = none: lifted when the process starts
 DeclHistories == {"decl-then-set", "set-decl-none"}
 LimitAtUse(h) == IF h \in {"set-before", "none-then-set", "decl-then-set"} THEN Limit ELSE NoLimit
+\* what the process is given when it starts: the limit that was set, none, or the documented default (60 s)
+AtStart(h) == IF LimitAtUse(h) # NoLimit THEN "set"
+              ELSE IF h \in {"set-then-none", "set-decl-none"} THEN "none" ELSE "default"
 Uses(p) == CASE p = "act" -> {"actor-command-line", "actor-shell", "actor-file", "actor-source", "stdin-from-program"}
              [] p = "assert" -> {"run", "shell", "percent", "file-from-stdout", "transformer-run", "text-matcher-run",
                                  "file-matcher-run", "exit-code-from", "stdout-from"}
